@@ -240,10 +240,13 @@ func ws(r *lib.Rng, hostile bool) string {
 // Print renders the tree twice in lock-step: tmpl (what is passed to gorm) and txt (what the
 // statement looks like once gorm's Explain has inlined the arguments).
 type Printed struct {
-	Tmpl  string
-	Txt   string
-	Args  []interface{}
-	Named map[string]interface{}
+	Tmpl string
+	Txt  string
+	Args []interface{}
+	// ArgKinds[i]: the Go value that carries Args[i]: "" as is | nullstr sql.NullString |
+	// nullint sql.NullInt64 | bytes []byte | ptr pointer to the value
+	ArgKinds []string
+	Named    map[string]interface{}
 }
 
 func PrintTree(r *lib.Rng, t *BTree, byID map[int]Atom, argStyle string, hostile bool) Printed {
@@ -266,7 +269,21 @@ func PrintTree(r *lib.Rng, t *BTree, byID map[int]Atom, argStyle string, hostile
 					if argStyle == "named" {
 						p.Named[name] = arg
 					} else {
+						kind := ""
+						switch {
+						case (at.Op == "in" || at.Op == "inempty") && r.Chance(1, 2):
+							// the list placeholder inside parentheses: gorm expands it in place
+							a = strings.Replace(a, "IN ?", "IN (?)", 1)
+						case at.Op == "in" || at.Op == "inempty":
+						case !r.Chance(1, 4):
+						case at.IsStr:
+							// ([]byte is left to C01: SQLite compares a BLOB with TEXT as unequal)
+							kind = lib.Pick(r, []string{"nullstr", "ptr"})
+						default:
+							kind = lib.Pick(r, []string{"nullint", "ptr"})
+						}
 						p.Args = append(p.Args, arg)
+						p.ArgKinds = append(p.ArgKinds, kind)
 					}
 				}
 			}
@@ -328,9 +345,11 @@ type Unit struct {
 	//  empty_map: "" | mapss | nilmap ; empty_struct: "" | slice ; group with no calls: empty group
 	Via   string  `json:"via,omitempty"`
 	Elems [][]int `json:"elems,omitempty"`
-	CE    *CExpr  `json:"ce,omitempty"`
-	Calls []Call  `json:"calls,omitempty"`
-	Tree  *BTree  `json:"tree,omitempty"`
+	// ArgKinds: see Printed.ArgKinds (raw units with ? arguments)
+	ArgKinds []string `json:"arg_kinds,omitempty"`
+	CE       *CExpr   `json:"ce,omitempty"`
+	Calls    []Call   `json:"calls,omitempty"`
+	Tree     *BTree   `json:"tree,omitempty"`
 }
 
 type Call struct {
@@ -573,11 +592,52 @@ func (c Call) Apply(db *gorm.DB, tx *gorm.DB, byID map[int]Atom) *gorm.DB {
 	return tx.Or(q, args...)
 }
 
+func asInt64(v interface{}) int64 {
+	switch x := v.(type) {
+	case int64:
+		return x
+	case int:
+		return int64(x)
+	case float64:
+		return int64(x)
+	}
+	return 0
+}
+
+// wrapValue: the Go value of the given kind that carries v to gorm.
+func wrapValue(v interface{}, kind string) interface{} {
+	switch kind {
+	case "nullstr":
+		return sql.NullString{String: fmt.Sprint(v), Valid: true}
+	case "bytes":
+		return []byte(fmt.Sprint(v))
+	case "nullint":
+		return sql.NullInt64{Int64: asInt64(v), Valid: true}
+	case "ptr":
+		if s, ok := v.(string); ok {
+			return &s
+		}
+		n := asInt64(v)
+		return &n
+	}
+	return v
+}
+func wrapArgs(args []interface{}, kinds []string) []interface{} {
+	if len(kinds) != len(args) {
+		return args
+	}
+	out := make([]interface{}, len(args))
+	for i, a := range args {
+		out[i] = wrapValue(a, kinds[i])
+	}
+	return out
+}
+
 // QueryArgs: the (query, args...) pair passed to Where/Not/Or/Find.
 func (u Unit) QueryArgs(db *gorm.DB, byID map[int]Atom) (interface{}, []interface{}) {
 	switch u.Form {
 	case "raw", "rawargs", "empty_string":
-		return u.Tmpl, u.Args
+		return u.Tmpl, wrapArgs(u.Args, u.ArgKinds)
 	case "named":
 		if u.Via == "sqlnamed" {
 			keys := []string{}
@@ -622,6 +682,16 @@ func (u Unit) QueryArgs(db *gorm.DB, byID map[int]Atom) (interface{}, []interfac
 		for _, id := range u.Members {
 			a := byID[id]
 			m[a.Col] = a.MapValue()
+			if a.Op == "eq" {
+				switch {
+				case u.Via == "valuer" && a.IsStr:
+					m[a.Col] = wrapValue(a.S, "nullstr")
+				case u.Via == "valuer":
+					m[a.Col] = wrapValue(a.I, "nullint")
+				case u.Via == "bytes" && a.IsStr:
+					m[a.Col] = wrapValue(a.S, "bytes")
+				}
+			}
 		}
 		return m, nil
 	case "struct", "empty_struct":
@@ -799,7 +869,7 @@ func (g *Gen) GenUnit(depth int, hostile bool, allowGroup bool) Unit {
 		if form == "rawargs" && len(p.Args) == 0 {
 			form = "raw"
 		}
-		u := Unit{Form: form, Tmpl: p.Tmpl, Txt: p.Txt, Args: p.Args, Named: p.Named, Tree: t}
+		u := Unit{Form: form, Tmpl: p.Tmpl, Txt: p.Txt, Args: p.Args, ArgKinds: p.ArgKinds, Named: p.Named, Tree: t}
 		if form == "named" && r.Chance(1, 3) {
 			u.Via = "sqlnamed"
 		}
@@ -854,6 +924,10 @@ func (g *Gen) mapUnit(n int) Unit {
 	}
 	if allStr && r.Bool() {
 		u.Via = "mapss"
+		return u
+	}
+	if r.Chance(1, 4) {
+		u.Via = "valuer" // eq members travel as sql.NullString / sql.NullInt64
 		return u
 	}
 	if len(u.Members) == 1 {
@@ -1342,7 +1416,7 @@ func (g *Gen) rawUnit(kind string, style string, hostile bool) Unit {
 	if form == "named" && len(p.Named) == 0 || form == "rawargs" && len(p.Args) == 0 {
 		form = "raw"
 	}
-	return Unit{Form: form, Tmpl: p.Tmpl, Txt: p.Txt, Args: p.Args, Named: p.Named, Tree: t}
+	return Unit{Form: form, Tmpl: p.Tmpl, Txt: p.Txt, Args: p.Args, ArgKinds: p.ArgKinds, Named: p.Named, Tree: t}
 }
 
 func (g *Gen) atomUnit() Unit {
